@@ -112,6 +112,9 @@ def wl_panel(ctx, rng, case_no):
             "style": G.definition(G.rand_record(rng, p_attr=0.1)) if rng.random() < 0.3 else "none"}
     if rng.random() < 0.25:
         spec["decor"] = SP._decor("panel", rng)
+    spec["title_text"] = SP.rand_title_text(rng, 0.25)
+    if spec["title_text"]:
+        spec["title"] = spec["title_text"]["s"]      # (truthy marker; the Text is built from title_text)
     m = SP.structural_min(spec)
     pt, pr, pb, pl = SP.unpack_pad(spec["padding"])
     for W in widths_for(rng, m):
@@ -155,7 +158,7 @@ def wl_panel(ctx, rng, case_no):
                 continue
         else:
             from rich.text import Text
-            title_plain = Text.from_markup(spec["title"]).plain.replace("\n", " ")
+            title_plain = SP.title_plain(spec).expandtabs(8)
             if not (tt.startswith(box.top_left) and tt.endswith(box.top_right)):
                 ctx.violation("panel-top-edge-wrong", wit)
                 continue
@@ -403,7 +406,7 @@ def wl_rule(ctx, rng, case_no):
         if shown != tchars[:len(shown)]:
             ctx.violation("rule-title-characters-out-of-order", dict(wit, shown="".join(shown)))
             continue
-        allowed = set(characters) | {" ", "…"} | set(tchars)
+        allowed = set(characters) | {" ", "…"} | set(title)      # (U+001C-1F are "whitespace" for str.isspace)
         if ascii_only and not all(ord(c) < 128 for c in characters):
             allowed |= {"-"}
         if any(c not in allowed for c in text):
